@@ -1482,7 +1482,7 @@ def run(ctx):
     # corpus first
     run_corpus(ctx)
     run_collisions(ctx)
-    run_pynum(ctx, ctx.n(3000, 30000))
+    run_pynum(ctx, ctx.n(3000, 15000))
     # the hand-written registry: all type expressions up to 3 wrappers (quick: all <=2, a sample of depth 3)
     reg = U.fixed_registry()
     allt = U.all_types(names_of(reg), 3)
